@@ -67,15 +67,15 @@ def case_strategy(draw, sub):
         return draw(st.integers(0, p)) == 0
 
     if maybe():
-        a = draw(st.sampled_from([1, 2, 3, 5, 8]))
+        a = draw(st.sampled_from([1, 2, 3, 5, 8, 0]))
         o["cut1"] = draw(st.sampled_from([[a], [-a], [a, -2], [-3, a]]))
     if paired and maybe():
-        a = draw(st.sampled_from([1, 2, 4, 7]))
+        a = draw(st.sampled_from([1, 2, 4, 7, 0]))
         o["cut2"] = draw(st.sampled_from([[a], [-a], [a, -1], [-2, a]]))
     if maybe(3):
-        o["nextseq"] = draw(st.sampled_from([5, 10, 20]))
+        o["nextseq"] = draw(st.sampled_from([5, 10, 20, 0]))
     if maybe():
-        o["q1_arg"] = draw(st.sampled_from(["5", "10", "15", "20", "3,7", "10,10", "0,12", "12,0"]))
+        o["q1_arg"] = draw(st.sampled_from(["5", "10", "15", "20", "3,7", "10,10", "0,12", "12,0", "0"]))
     if paired and maybe(3):
         o["q2_arg"] = draw(st.sampled_from(["7", "18", "4,9", "11,2"]))
     if maybe():
@@ -83,7 +83,7 @@ def case_strategy(draw, sub):
     if maybe():
         o["length1"] = draw(st.sampled_from([0, 3, 8, 12, 20, -3, -8, -15]))
     if paired and maybe(3):
-        o["length2_arg"] = draw(st.sampled_from([2, 9, 14, -4, -10]))
+        o["length2_arg"] = draw(st.sampled_from([2, 9, 14, -4, -10, 0]))
     if maybe():
         o["trim_n"] = True
     if maybe(3):
